@@ -588,13 +588,21 @@ def _sb_getc(sb, bump=True):
     r &= 0xFFFFFFFF
     return -1 if r == 0xFFFFFFFF else (r & 0xFF)
 def _str_assign(sp, data):
-    """assign bytes/list-of-byte-values to a std::string object through the real (IR) _M_replace when available"""
+    """assign bytes / list of byte values to a std::string object (libstdc++ cxx11 ABI layout: {char* p; size_t len; union{char local[16]; size_t cap}})"""
     n = len(data)
-    buf = rt.new_obj(max(n, 1), 'heap', 'getline buffer')
-    for i, c in enumerate(data): st(buf + i, 1, c)
-    f = rt.find_fn('_ZNSt7__cxx1112basic_stringIcSt11char_traitsIcESaIcEE10_M_replaceEmmPKcm')
-    f(sp, 0, ld(sp + 8, 8), buf, n)
-    rt.OBJ.pop(buf >> 32, None)
+    old = ld(sp, 8)
+    if old != sp + 16 and old in [o << 32 for o in ()]: pass
+    if n <= 15:
+        if old != sp + 16 and (old >> 32) in rt.OBJ and rt.OBJ[old >> 32].kind == 'heap': rt.free(old)
+        dst = sp + 16; st(sp, 8, dst)
+    else:
+        cap = ld(sp + 16, 8) if old != sp + 16 else 15
+        if old == sp + 16 or cap < n:
+            if old != sp + 16 and (old >> 32) in rt.OBJ and rt.OBJ[old >> 32].kind == 'heap': rt.free(old)
+            dst = rt.malloc(n + 1); st(sp, 8, dst); st(sp + 16, 8, n)
+        else: dst = old
+    for i, c in enumerate(data): st(dst + i, 1, c)
+    st(dst + n, 1, 0); st(sp + 8, 8, n)
 @ext('_ZSt7getlineIcSt11char_traitsIcESaIcEERSt13basic_istreamIT_T0_ES7_RNSt7__cxx1112basic_stringIS4_S5_T1_EES4_')
 def _getline(is_, sp, delim):
     ios = _ios_of(is_)
